@@ -86,6 +86,23 @@ def _oracle(args):
         return ('ok', None, n)
     return ('bad', errs, n)
 
+def repeat_docs(ctx, n):
+    """a hierarchical element whose children are hierarchical elements (or crossheadings) with plain lines before, between and after
+    them, the lines drawn from a pool of three so that the same line often occurs in several runs: the grouping into intro / hcontainer /
+    wrapUp must follow position, not content"""
+    out = []
+    for _ in range(n):
+        pool = ctx.rng.sample(['or', 'and', 'Subject to this Act:', 'provided that', '(content)'], 3)
+        kw, sub = ctx.rng.choice([('SEC', 'SUBSEC'), ('PART', 'SEC'), ('PARA', 'SUBPARA'), ('CHAPTER', 'CROSSHEADING')])
+        lines = [kw + ' 1. - Offences']
+        for k in range(ctx.rng.randint(1, 3)):
+            for _ in range(ctx.rng.choice([0, 1, 1, 2])): lines.append('  ' + ctx.rng.choice(pool))
+            lines.append('  ' + sub + (' (%s)' % 'abc'[k] if sub != 'CROSSHEADING' else ' heading %d' % k))
+            if sub != 'CROSSHEADING': lines.append('    ' + ctx.rng.choice(['a fine;', 'imprisonment;'] + pool))
+        for _ in range(ctx.rng.choice([0, 1, 1, 2])): lines.append('  ' + ctx.rng.choice(pool))
+        out.append((stages.URIS[0], ctx.rng.choice(gen.ROOTS6), '', '\n'.join(lines) + '\n'))
+    return out
+
 def cases(ctx, n):
     old = gen.gen_attrs
     gen.gen_attrs = safe_attrs
@@ -94,7 +111,7 @@ def cases(ctx, n):
         for _ in range(n):
             root = ctx.rng.choice(gen.ROOTS7)
             out.append((stages.URIS[0], root, ctx.rng.choice(stages.PREFIXES), gen.any_text(ctx.rng, root)))
-        return out
+        return out + repeat_docs(ctx, max(40, n // 20))
     finally:
         gen.gen_attrs = old
 
